@@ -55,6 +55,8 @@ def _jac_verdict(prop, spec_name, ch, case, which, res, mode):
         return out
     m, n = r["m"], r["n"]
     M, prob = W.matrix_from(r["rows"] if mode == "rev" else r["cols"], m, n, by_rows=(mode == "rev"))
+    if M is not None and mode == "rev" and r.get("zero_cotangent_size", n) != n:
+        M, prob = None, "VJP of the zero cotangent has %d real coordinates, expected %d" % (r["zero_cotangent_size"], n)
     if M is None:
         counts["wrong-shape"] += 1
         out["v"] = W.mk_violation(prop, spec_name, ch, case, which, mode, "wrong-shape", prob, "%d x %d real Jacobian" % (m, n))
